@@ -93,7 +93,11 @@ def gen_plan(seed, tier):
         st["prio"] = 0x8000
         st["flags"] &= ~W.FF_CHECK_OVERLAP
       if cmd in (W.FC_DELETE, W.FC_DELETE_STRICT) and r.chance(0.35):
-        st["out_port"] = r.randint(1, nports)
+        # (any port an action may name: physical, reserved, or one the
+        # switch does not have)
+        st["out_port"] = r.wpick([(6, r.randint(1, nports)),
+                                  (2, W.OFPP_CONTROLLER), (2, W.OFPP_FLOOD),
+                                  (1, nports + 1), (1, W.OFPP_IN_PORT)])
       elif r.chance(0.15):
         # out_port only filters DELETE / DELETE_STRICT; ADD and MODIFY must
         # ignore it
